@@ -32,7 +32,7 @@ TRUSTED = [
 ]
 ASSUMPTIONS = ['compose() of collections holding Set-Cookie / WWW-Authenticate / Proxy-Authenticate (field-specific split) is outside the model and judged by the oracle only',
 	'compose_parse_roundtrip assumes the stored names are canonical (what formatkey produces) and the values are as the parser stores them (no outer white space, no CR)']
-RULE = ('operation sequences (length <= 30) of set/get/contains/del/pop/append/parse/compose over names from the token alphabet in random letter case, registered names, invalid names '
+RULE = ('operation sequences (length <= 30) of set/get/contains/del/pop/append/setdefault/parse/compose over names from the token alphabet in random letter case, registered names, invalid names '
 	'(separators, controls, 8-bit, ligatures), values over visible ASCII / Latin-1 / arbitrary Unicode (RFC 2047 on assignment), short and 40-200 octets long; parse blocks with repeated fields, continuation lines, odd whitespace; '
 	'non-trivial = sequence with >= 2 distinct surviving keys; distinct by final collection')
 
@@ -105,8 +105,8 @@ def cases(rng, tier):
 					name = rand_case(rng, name.decode('ascii')).encode()
 				except UnicodeDecodeError:
 					pass
-			k = rng.choice('SSSGGHDPAAARC')
-			if k in 'SA':
+			k = rng.choice('SSSGGHDPAAARCF')
+			if k in 'SAF':
 				ops.append((k, name, gen_value(rng)))
 			elif k in 'GHDP':
 				ops.append((k, name))
@@ -149,6 +149,9 @@ def apply_ops(ops):
 			elif k == 'A':
 				h.append(op[1], op[2])
 				outs.append('ok')
+			elif k == 'F':
+				r = h.setdefault(op[1], op[2])
+				outs.append('some:' + hx(r))
 			elif k == 'G':
 				r = h.getbytes(op[1])
 				outs.append('None' if r is None else 'some:' + hx(r))
@@ -206,15 +209,26 @@ def oracle(case):
 			dirty = True
 		name = op[1] if len(op) > 1 and k != 'R' else None
 		try:
-			if k in 'SA' and is_bad_name(name):
+			if k in 'SAF' and is_bad_name(name):
 				try:
-					(h.__setitem__ if k == 'S' else h.append)(name, op[2])
+					(h.__setitem__ if k == 'S' else h.append if k == 'A' else h.setdefault)(name, op[2])
 				except InvalidHeader:
 					continue
 				return {'what': 'invalid field name accepted on assignment', 'name': name.decode('latin-1'), 'finding': None}
-			if k in 'SA' and any(c in (op[2] if isinstance(op[2], str) else op[2].decode('latin-1')) for c in u'\r\n\x0b\x0c\x1c\x1d\x1e\x85\u2028\u2029'):
+			if k in 'SAF' and any(c in (op[2] if isinstance(op[2], str) else op[2].decode('latin-1')) for c in u'\r\n\x0b\x0c\x1c\x1d\x1e\x85\u2028\u2029'):
 				dirty = True      # the caller put a line break into a value: composing it is the caller's problem
-			if k == 'S':
+			if k == 'F':
+				was = h.getbytes(name)
+				r = h.setdefault(name, op[2])
+				want = was if was is not None else enc_value(op[2])
+				if r != want:
+					return {'what': 'setdefault returned %r, expected %r' % (r, want), 'name': name.decode('latin-1'), 'finding': None}
+				for alt in (name, name.lower(), name.upper(), name.title(), name.swapcase()):
+					if h.getbytes(alt) != want or alt not in h:
+						return {'what': 'after setdefault the field is not found under the spelling %r (or holds %r)' % (alt, h.getbytes(alt)), 'name': name.decode('latin-1'), 'finding': None}
+				if was is None:
+					ref[name.lower()] = want
+			elif k == 'S':
 				h[name] = op[2]
 				ref[name.lower()] = enc_value(op[2])
 			elif k == 'A':
